@@ -137,8 +137,8 @@ mod run {
             let inst = INST.with(Cell::get);
             if name == "ctl.send" && inst != 99 {
                 // what the kernel says just before the predecessor is told: sockets in LISTEN state on each port
-                for (ix, port) in self.ports.iter().enumerate() {
-                    self.note("h.lsn", (ix as i64) * 1000 + listening_sockets(*port));
+                for (ix, cnt) in listening_sockets(&self.ports).into_iter().enumerate() {
+                    self.note("h.lsn", if cnt < 0 { -1 } else { (ix as i64) * 1000 + cnt });
                 }
             }
             let mut g = self.m.lock().unwrap();
@@ -214,10 +214,10 @@ mod run {
         }
     }
 
-    /// number of TCP sockets in LISTEN state with this local port (both families), from /proc/net/tcp{,6}; -1: unreadable
-    fn listening_sockets(port: u16) -> i64 {
-        let needle = format!(":{port:04X}");
-        let mut n = 0;
+    /// number of TCP sockets in LISTEN state on each of the ports (both families), from /proc/net/tcp{,6}; -1: unreadable
+    fn listening_sockets(ports: &[u16]) -> Vec<i64> {
+        let needles: Vec<String> = ports.iter().map(|p| format!(":{p:04X}")).collect();
+        let mut n = vec![0i64; ports.len()];
         let mut read = false;
         for f in ["/proc/net/tcp", "/proc/net/tcp6"] {
             if let Ok(text) = std::fs::read_to_string(f) {
@@ -225,8 +225,12 @@ mod run {
                 for line in text.lines().skip(1) {
                     let mut it = line.split_whitespace();
                     let (_sl, local, _remote, st) = (it.next(), it.next().unwrap_or(""), it.next(), it.next().unwrap_or(""));
-                    if st == "0A" && local.ends_with(&needle) {
-                        n += 1;
+                    if st == "0A" {
+                        for (k, needle) in needles.iter().enumerate() {
+                            if local.ends_with(needle.as_str()) {
+                                n[k] += 1;
+                            }
+                        }
                     }
                 }
             }
@@ -234,7 +238,7 @@ mod run {
         if read {
             n
         } else {
-            -1
+            vec![-1; ports.len()]
         }
     }
 
